@@ -28,3 +28,6 @@ Definition ignore_step_gen (item : key) (arg_dict : adict) : result adict :=
 
 (* 1 = arg_dict['**'] = varkwargs, 2 = arg_dict['*'] = args[arg_position + 1:] *)
 Definition tail_order_gen : list Z := [1; 2].
+
+Definition takes_fallback_gen (is_method is_function : bool) : bool :=
+  ((negb is_method) && (negb is_function)).
